@@ -384,7 +384,30 @@ def no_shared_parameter_arrays(ctx, rule="R14.8"):
     ctx.floor(rule, "parameter-field stores by public entry points", n, 8)
 
 
+def constructor_var_last(ctx, rule="R14.10"):
+    """var = var_raw * var_factor(), and var_factor depends on the length scale (TPL models).  Every statement of the constructor that can
+    change the length scale - `self.len_scale = ...`, `self.integral_scale = ...` (its setter rescales len_scale) - must be FOLLOWED by a
+    (re-)assignment of the variance, otherwise the reported variance belongs to the provisional length scale."""
+    init = ctx.prog.func(BASE, "CovModel.__init__")
+    site = BASE + "::CovModel.__init__"
+
+    def stores(attr):
+        return [n for n in ast.walk(init) if isinstance(n, ast.Assign) and any(isinstance(t, ast.Attribute) and isinstance(t.value, ast.Name) and t.value.id == "self" and t.attr == attr for t in n.targets)]
+
+    var_sets = stores("var")
+    scale_sets = stores("integral_scale") + stores("len_scale") + [n for n in ast.walk(init) if isinstance(n, ast.Assign) and any(isinstance(t, ast.Attribute) and t.attr == "_len_scale" for tt in n.targets for t in ast.walk(tt))]
+    if not var_sets or not scale_sets:
+        raise AnalysisError("anchor vanished: var / length-scale assignments in CovModel.__init__")
+    last_scale = max(scale_sets, key=lambda n: n._ord)
+    ok = any(v._ord > last_scale._ord for v in var_sets)
+    ctx.check(ok, rule, site, "the variance is (re)assigned after the last statement that can change the length scale (`%s`)" % norm_stmt(last_scale)[:60], "var-after-scale")
+    # both branches (var given / var_raw given) are handled wherever the variance is set
+    raw_sets = [n for n in ast.walk(init) if isinstance(n, ast.Assign) and ast.unparse(n.targets[0]) == "self._var" and "var_raw" in ast.unparse(n.value)]
+    ctx.check(any(r._ord > last_scale._ord for r in raw_sets), rule, site, "a given var_raw is stored after the length scale is final as well", "var-raw-after-scale")
+
+
 def run(ctx):
+    constructor_var_last(ctx)
     from .C12 import bookkeeping
 
     bookkeeping(ctx, rule="R14.9")  # len_scale / anis bookkeeping of set_len_anis, set_anis, set_angles (shared with C12)
